@@ -78,6 +78,52 @@ class Repeat(Harness):
         return Outcome("encoded", ok, {"first": t1, "second": t2, "after": s2})
 
 
+# strings the four dialects treat differently (bare in one, quoted in another, refused in a third)
+WORDS = ("CTX+HiRISE", "a+b", "x#y", "N/A", "1:2", "a-b", "Null", "END_GROUPX", "12:00-05", "2#101#", "x y", "it's", 'say "hi"',
+         "caf\u00e9", "a\tb", "infinity", "NaN", "-", "a&b", "<m>", "true", "1e5", "0x10", "a,b", "(x)", "{y}", "p=q", "semi;colon")
+
+
+class Interleaved(Harness):
+    """repeatability across encoders: dump with A, then with another dialect's encoder B, then with A again (the same
+    instance and a fresh one) - the three A texts are identical; the value strings come from a pool of words the
+    dialects treat differently (solver-chosen), scalar and inside a sequence and a group"""
+    prop = "C13"
+    alphabet = "latin"
+    functions = ("pvl.encoder.*Encoder.encode", "pvl.encoder.*Encoder.needs_quotes", "pvl.encoder.PVLEncoder._decodes_to_itself")
+    must_reach = ("encoded", "refused")
+
+    @property
+    def bounds(self):
+        return "encoder %s, then %s, then %s again; value chosen by the solver out of %d words %s" % (
+            self.a, self.b, self.a, len(WORDS), list(WORDS))
+
+    def inputs(self, ctx):
+        from .c10 import pick
+        return {"w": pick(ctx, "w", 0, len(WORDS) - 1), "v": pick(ctx, "v", 0, len(WORDS) - 1)}
+
+    def prop_fn(self, L, inp):
+        from .common import dialect
+        c = rt.C(L)
+        w, v = WORDS[inp["w"]], WORDS[inp["v"]]
+        m = c.M([("Instrument", w), ("g", c.G([("list", [w, 1, v]), ("other", v)]))])
+        A, B = dialect(L, self.a)["encoder"](), dialect(L, self.b)["encoder"]()
+
+        def enc(E):
+            try:
+                return ("ok", E.encode(m))
+            except ValueError:
+                return ("ValueError", None)
+            except TypeError:
+                return ("TypeError", None)
+        s0 = rt.snapshot(m)
+        r1 = enc(A)
+        enc(B)
+        r2 = enc(A)
+        r3 = enc(dialect(L, self.a)["encoder"]())
+        ok = r1 == r2 and r1 == r3 and snap_eq(s0, rt.snapshot(m), self.a == "PDS3" or self.b == "PDS3") is not False
+        return Outcome("encoded" if r1[0] == "ok" else "refused", ok, {"first": r1[1], "again": r2[1], "fresh": r3[1]})
+
+
 def obligations(tier):
     obs = []
     nmax = 1 if tier == "quick" else 2
@@ -93,6 +139,10 @@ def obligations(tier):
                 continue
             for shape in ("grouponly", "badgroup", "dupgroup", "nested", "wrapseq"):
                 obs.append(Repeat(dialect=dia, shape=shape, n=1, cfg=cfg, entry="encode"))
+    for a in ("PVL", "ODL", "PDS3", "ISIS"):
+        for b in ("PVL", "ODL", "PDS3", "ISIS"):
+            if a != b:
+                obs.append(Interleaved(a=a, b=b))
     return obs
 
 
